@@ -519,6 +519,24 @@ def end_to_end(res, rng, scratch_dir, idx, kind, reqs, impls):
         hand_body = hand_expand(body, env)
     except Exception as e:   # the generator only builds valid templates
         raise RuntimeError("generator produced a template the oracle cannot expand: %r %r" % (e, template))
+    if kind == "sys":
+        # the hand-expanded PROGRAM has no template arguments anywhere: every instance `Gate(a, b)` refers to a hand-written
+        # Gate_a_b.comp (one template instantiated with different arguments in one compile must give different components)
+        tuples = []
+        def inst(m):
+            a_, b_ = int(m.group(1)), int(m.group(2))
+            if (a_, b_) not in tuples:
+                tuples.append((a_, b_))
+            return "= Gate_%d_%d:" % (a_, b_)
+        hb2 = re.sub(r"=\s*Gate\(\s*(-?\d+)\s*,\s*(-?\d+)\s*\)\s*:", inst, hand_body)
+        if tuples and "Gate(" not in hb2:
+            hand_body = re.sub(r"^(\s*)import Gate\s*$", lambda m: m.group(1) + "import " + ", ".join("Gate_%d_%d" % t for t in tuples), hb2, flags=re.M)
+            for (a_, b_) in tuples:
+                gtext = "declare component Gate_%d_%d: a -> b\n" % (a_, b_) + hand_expand(GATE[1:], {"n": a_, "m": b_})
+                with open(os.path.join(d2, "Gate_%d_%d.comp" % (a_, b_)), "w") as f:
+                    f.write(gtext)
+                inp["hand_expanded Gate_%d_%d.comp" % (a_, b_)] = gtext
+            res.count("e2e:sys:distinct-argument-tuples-of-one-template:%d" % min(len(tuples), 4))
     hand = pre + head0 + "\n" + hand_body
     inp["hand_expanded" + ext] = hand
     with open(os.path.join(d1, "T" + ext), "w") as f:
